@@ -7,5 +7,5 @@ CONSTANTS
   MaxOps = 5
   Defects = {"CountOnOneway"}
 SPECIFICATION Spec
-INVARIANTS InvType InvCounts InvLiveOnOpen InvGoAwayDrains InvNoOrphan InvSlotUsable InvLimit InvAdmitOnUsable InvRefusalJustified InvRefusalNeutral InvNoDialAfterShutdown
+INVARIANTS InvType InvBound InvCounts InvLiveOnOpen InvGoAwayDrains InvNoOrphan InvSlotUsable InvLimit InvAdmitOnUsable InvRefusalJustified InvRefusalNeutral InvNoDialAfterShutdown
 CHECK_DEADLOCK FALSE
